@@ -13,6 +13,14 @@ use std::rc::Rc;
 
 /// `format("{}", x)` through the real built-in (no parsing of x involved).
 fn format_builtin(x: f64) -> Result<String, String> {
+    // first a *failing* format call on the same thread, with a heap of its own (a template that is not
+    // a string, after arguments that have already been rendered): nothing of it may show below
+    {
+        let heap = Rc::new(RefCell::new(Heap::new()));
+        let env = Rc::new(Environment::new());
+        let def = FunctionDef::BuiltIn(BuiltInFunction::Format);
+        let _ = def.call(Value::BuiltIn(BuiltInFunction::Format), vec![Value::Number(1e21), Value::Number(98765.4321), Value::Number(0.00001)], Rc::clone(&heap), env, 0, "");
+    }
     let heap = Rc::new(RefCell::new(Heap::new()));
     let env = Rc::new(Environment::new());
     let fmt = heap.borrow_mut().insert_string("{}".to_string());
